@@ -1,1 +1,3 @@
+import UVerifProofs.Lemmas.Quire
 import UVerifProofs.Props.C01
+import UVerifProofs.Props.C05
